@@ -213,6 +213,10 @@ def gen_token(name, x, st, rng, last):
     if name == 'flip':
         return 'flip:%d' % rng.randrange(d)
     if name == 'moveaxis':
+        if d >= 3 and rng.random() < 0.7:
+            # source and destination at distance >= 2: moving a -> b differs from moving b -> a
+            a, b = rng.choice([(i, j) for i in range(d) for j in range(d) if abs(i - j) >= 2])
+            return 'moveaxis:%d:%d' % (a, b)
         return 'moveaxis:%d:%d' % (rng.randrange(d), rng.randrange(d))
     if name == 'tile':
         reps = [rng.randint(1, 2) for _ in range(d)]
@@ -291,6 +295,8 @@ def rand_leaf_shape(rng, first):
     r = rng.choice([1, 2, 2, 2, 3, 3])
     if first in ('matmul', 'squeeze'):
         r = max(r, 2)
+    if first == 'moveaxis' and rng.random() < 0.75:
+        r = 3
     for _ in range(200):
         s = [rng.randint(1, 4) for _ in range(r)]
         if first == 'squeeze' and 1 not in s:
@@ -531,6 +537,9 @@ def storage_leaf_shape(la, seq):
             return [2, 3]
         if 'reshape_ct' in seq:
             return rng.choice([[2, 3], [3, 2], [1, 6], [6, 1]])
+        if rng.random() < 0.4:
+            # exactly the capacity of the bounded kinds (12 elements): a result buffer one element short shows
+            return rng.choice([[3, 4], [4, 3], [2, 6], [6, 2]])
         while True:
             s = [rng.randint(1, 4), rng.randint(1, 4)]
             if 1 < prod(s) <= 12:
@@ -545,11 +554,11 @@ def gen_tu(t, tier, rng):
         for seq in sequences(t):
             n = len(seq)
             if n == 1:
-                k = 4 if quick else 10
+                k = 8 if quick else 20
             elif n == 2:
-                k = 2 if quick else 4
+                k = 3 if quick else 8
             else:
-                k = 1 if quick else 3
+                k = 2 if quick else 4
             if t['name'].startswith('h_c10_ap'):
                 if n == 1:
                     continue
